@@ -25,6 +25,7 @@ import SvModel.Proofs.CopyAssign
 import SvModel.Proofs.SwapSys
 import SvModel.Proofs.MoveCtorAll
 import SvModel.Proofs.MoveAssignAll
+import SvModel.Proofs.CopyAssignProp
 import SvModel.Api
 
 namespace SvModel.System
@@ -36,7 +37,7 @@ inductive MOp (α : Type) where
   | ctorCopy (c o a : Nat)                   -- small_vector (other, alloc), any pair of inline capacities
   | dtor (c : Nat)
   | on (c : Nat) (op : SOp α)
-  | copyAssign (c o : Nat)                   -- c = o (operator= / assign (const small_vector&)), equal or non-propagating allocators
+  | copyAssign (c o : Nat)                   -- c = o (operator= / assign (const small_vector&)): equal, non-propagating or propagating allocators
   | swap (c o : Nat)                         -- c.swap (o), same type; allocators equal or propagating on swap
   | ctorMove (c o : Nat)                     -- small_vector (std::move (o)), any pair of inline capacities
   | moveAssign (c o : Nat)                   -- c = std::move (o), any pair of inline capacities, any allocator relation
@@ -50,7 +51,8 @@ def MOp.valid (cfg : Cfg) (U : List Nat) (s : St α) : MOp α → Prop
   | .ctorCopy c o _ => c ∈ U ∧ c ∉ s.A ∧ o ∈ s.A
   | .dtor c => c ∈ s.A
   | .on c op => c ∈ s.A ∧ op.valid (s.w.hdr c).size
-  | .copyAssign c o => c ∈ s.A ∧ o ∈ s.A ∧ o ≠ c ∧ ((s.w.hdr o).alloc = (s.w.hdr c).alloc ∨ cfg.pocca = false)
+  | .copyAssign c o => c ∈ s.A ∧ o ∈ s.A ∧ o ≠ c ∧
+      ((s.w.hdr o).alloc = (s.w.hdr c).alloc ∨ cfg.pocca = false ∨ copyAssignPropagating cfg.policy = true)
   | .swap c o => c ∈ s.A ∧ o ∈ s.A ∧ c ≠ o ∧ (s.w.hdr c).N = (s.w.hdr o).N ∧
       ((s.w.hdr c).N = 0 → (s.w.hdr c).inl = (s.w.hdr o).inl) ∧ SwapAllocOK cfg s.w c o
   | .ctorMove c o => c ∈ U ∧ c ∉ s.A ∧ o ∈ s.A ∧ ((s.w.hdr c).N = 0 → (s.w.hdr o).N = 0 → (s.w.hdr c).inl = (s.w.hdr o).inl)
@@ -172,12 +174,24 @@ theorem step_sys (cfg : Cfg) (U : List Nat) (hpol : StrongPolicy cfg) (s : St α
   | copyAssign c o =>
     obtain ⟨hc, ho, hoc, hal⟩ := hv
     rw [← hh0] at hal
-    obtain ⟨hdef, hmc⟩ := copyAssign_default cfg c o w0 hal
-    have h := copyAssignDefault_sat cfg c o w0 (hs0.ok.vec c hc) hs0.ok.led (hs0.ok.nmax c hc) (hs0.ok.vec o ho) (hs0.ok.nmax o ho)
-      (hs0.ok.foreign hc ho hoc) hmc
-    cases hr : SvModel.copyAssign cfg c o w0 with
-    | ok r w' => rw [← hdef, hr] at h; simp only [MOp.run, hr]; exact hs0.step hc h.basic
-    | thrown e w' => rw [← hdef, hr] at h; simp only [MOp.run, hr]; exact hs0.step hc h.1.1
+    by_cases hdflt : (w0.hdr o).alloc = (w0.hdr c).alloc ∨ cfg.pocca = false
+    · obtain ⟨hdef, hmc⟩ := copyAssign_default cfg c o w0 hdflt
+      have h := copyAssignDefault_sat cfg c o w0 (hs0.ok.vec c hc) hs0.ok.led (hs0.ok.nmax c hc) (hs0.ok.vec o ho) (hs0.ok.nmax o ho)
+        (hs0.ok.foreign hc ho hoc) hmc
+      cases hr : SvModel.copyAssign cfg c o w0 with
+      | ok r w' => rw [← hdef, hr] at h; simp only [MOp.run, hr]; exact hs0.step hc h.basic
+      | thrown e w' => rw [← hdef, hr] at h; simp only [MOp.run, hr]; exact hs0.step hc h.1.1
+    · have hprop : copyAssignPropagating cfg.policy = true := by
+        rcases hal with h | h | h
+        · exact absurd (Or.inl h) hdflt
+        · exact absurd (Or.inr h) hdflt
+        · exact h
+      have hneq : (w0.hdr o).alloc ≠ (w0.hdr c).alloc := fun h => hdflt (Or.inl h)
+      have h := copyAssignProp_sat cfg c o w0 (hs0.ok.vec c hc) hs0.ok.led (hs0.ok.nmax c hc) (hs0.ok.vec o ho) (hs0.ok.nmax o ho)
+        (hs0.ok.foreign hc ho hoc) hprop hneq
+      cases hr : SvModel.copyAssign cfg c o w0 with
+      | ok r w' => rw [hr] at h; simp only [MOp.run, hr]; exact hs0.step hc h.1
+      | thrown e w' => rw [hr] at h; simp only [MOp.run, hr]; exact hs0.step hc h
   | swap c o =>
     obtain ⟨hc, ho, hco, hN, hnull, hal⟩ := hv
     rw [← hh0] at hN hnull
@@ -224,6 +238,13 @@ theorem sys_clauses {cfg : Cfg} {w : World α} {U A : List Nat} (h : SysAll cfg 
   have := (h.ok.led.live_ok b hb).1
   have := (h.ok.vec c hc).inl_lt
   omega
+
+/-- C07, storage side: in every system state each heap buffer was obtained from (an allocator equal to) the allocator
+    its container holds NOW — so the deallocation that `wipe`/the destructor will perform goes to the right allocator,
+    whatever sequence of propagating / non-propagating assignments, moves and swaps led here -/
+theorem sys_alloc_clause {cfg : Cfg} {w : World α} {U A : List Nat} (h : SysAll cfg w U A) :
+    ∀ c ∈ A, (w.hdr c).data ≠ (w.hdr c).inl → w.owner (w.hdr c).data = (w.hdr c).alloc :=
+  fun c hc hne => ((h.ok.vec c hc).heap hne).2
 
 /-! ### contents: every constructed container follows the L0 (`std::vector`) meaning of the calls (C01 over several
     containers), and a call on one container changes no other (frame) -/
@@ -344,24 +365,40 @@ theorem step_tracks (cfg : Cfg) (U : List Nat) (hpol : StrongPolicy cfg) (s : St
   | copyAssign c o =>
     obtain ⟨hc, ho, hoc, hal⟩ := hv
     rw [← hh0] at hal
-    obtain ⟨hdef, hmc⟩ := copyAssign_default cfg c o w0 hal
-    have h := copyAssignDefault_sat cfg c o w0 (hs0.ok.vec c hc) hs0.ok.led (hs0.ok.nmax c hc) (hs0.ok.vec o ho) (hs0.ok.nmax o ho)
-      (hs0.ok.foreign hc ho hoc) hmc
+    -- both families of paths give: Basic in both outcomes, the source's values on return
+    have key : (SvModel.copyAssign cfg c o w0).sat
+        (fun _ w' => Basic cfg w0 w' c ∧ Holds w' c ((srcsCopy (w0.hdr o).data 0 (w0.hdr o).size).map (srcVal w0)))
+        (fun _ w' => Basic cfg w0 w' c) := by
+      by_cases hdflt : (w0.hdr o).alloc = (w0.hdr c).alloc ∨ cfg.pocca = false
+      · obtain ⟨hdef, hmc⟩ := copyAssign_default cfg c o w0 hdflt
+        have h := copyAssignDefault_sat cfg c o w0 (hs0.ok.vec c hc) hs0.ok.led (hs0.ok.nmax c hc) (hs0.ok.vec o ho) (hs0.ok.nmax o ho)
+          (hs0.ok.foreign hc ho hoc) hmc
+        rw [hdef]
+        exact Res.sat_mono h (fun _ _ h => ⟨h.basic, h.holds⟩) (fun _ _ h => h.1.1)
+      · have hprop : copyAssignPropagating cfg.policy = true := by
+          rcases hal with h | h | h
+          · exact absurd (Or.inl h) hdflt
+          · exact absurd (Or.inr h) hdflt
+          · exact h
+        have hneq : (w0.hdr o).alloc ≠ (w0.hdr c).alloc := fun h => hdflt (Or.inl h)
+        have h := copyAssignProp_sat cfg c o w0 (hs0.ok.vec c hc) hs0.ok.led (hs0.ok.nmax c hc) (hs0.ok.vec o ho) (hs0.ok.nmax o ho)
+          (hs0.ok.foreign hc ho hoc) hprop hneq
+        exact Res.sat_mono h (fun _ _ h => ⟨h.1, h.2.1⟩) (fun _ _ h => h)
     cases hr : SvModel.copyAssign cfg c o w0 with
     | ok r w' =>
-      rw [← hdef, hr] at h; simp only [MOp.run, hr]
+      rw [hr] at key; simp only [MOp.run, hr]
       refine ⟨fun _ => ⟨_, fun _ _ => rfl, fun d hd => ?_⟩, fun h' => by cases h'⟩
       by_cases hdc : d = c
-      · rw [hdc]; simp only [MOp.spec, upd_same]; rw [← srcsCopy_vals (ht0 o ho)]; exact h.holds
-      · simp only [MOp.spec, upd_other _ _ _ _ hdc]; exact hs0.ok.holds_other hc h.basic hd hdc (ht0 d hd)
+      · rw [hdc]; simp only [MOp.spec, upd_same]; rw [← srcsCopy_vals (ht0 o ho)]; exact key.2
+      · simp only [MOp.spec, upd_other _ _ _ _ hdc]; exact hs0.ok.holds_other hc key.1 hd hdc (ht0 d hd)
     | thrown e w' =>
-      rw [← hdef, hr] at h; simp only [MOp.run, hr]
+      rw [hr] at key; simp only [MOp.run, hr]
       refine ⟨(fun h' => by cases h'), fun _ => ?_⟩
-      obtain ⟨ys, hy⟩ := h.1.1.vec.holds_exists
+      obtain ⟨ys, hy⟩ := key.vec.holds_exists
       refine ⟨upd σ c ys, fun d hd => ?_, fun d hd => upd_other _ _ _ _ (by simpa [MOp.targets] using hd)⟩
       by_cases hdc : d = c
       · rw [hdc, upd_same]; exact hy
-      · rw [upd_other _ _ _ _ hdc]; exact hs0.ok.holds_other hc h.1.1 hd hdc (ht0 d hd)
+      · rw [upd_other _ _ _ _ hdc]; exact hs0.ok.holds_other hc key hd hdc (ht0 d hd)
   | swap c o =>
     obtain ⟨hc, ho, hco, hN, hnull, hal⟩ := hv
     have hoc : o ≠ c := fun e => hco e.symm
@@ -628,5 +665,30 @@ example : let s5 := run Ex.cfgT ⟨initWorld 2 3, []⟩ (exMA2.take 5)
     let s7 := run Ex.cfgT ⟨initWorld 2 3, []⟩ (exMA2.take 7)
     returned Ex.cfgT s5 (.moveAssign 0 3, [2]) = false ∧ s6.w.live = [] ∧ s6.w.hdr 0 = s5.w.hdr 0 ∧
     s7.w.live.length = 1 ∧ (s7.w.mem (s7.w.hdr 0).data).take (s7.w.hdr 0).size = [.obj .husk, .obj (.val 9), .obj (.val 10)] := by decide +kernel
+
+/-- non-vacuity for copy assignment with a PROPAGATING allocator unequal to the destination's (allocator ids 1–4): into a
+    block of the source's allocator (throwing: nothing changes; returning: the destination has the source's allocator);
+    into the in-object buffer of a heap destination whose block is released; in place into an inline destination (a
+    reallocation is needed and throws) -/
+def cfgP : Cfg := { Ex.cfgT with pocca := true }
+def exCA : List (MOp Int × List Nat) :=
+  [(.ctorVals 0 1 [1, 2, 3, 4], []), (.ctorVals 1 2 [5], []), (.copyAssign 1 0, [2]), (.copyAssign 1 0, []),
+   (.ctorVals 2 3 [6, 7], []), (.on 2 (.reserve 5), []), (.on 1 (.erase 0), []), (.on 1 (.erase 0), []),
+   (.copyAssign 2 1, [1]), (.copyAssign 2 1, []),
+   (.ctorVals 3 4 [9], []), (.copyAssign 3 0, [1]), (.copyAssign 3 1, []),
+   (.dtor 0, []), (.dtor 1, []), (.dtor 2, []), (.dtor 3, [])]
+
+example : copyAssignPropagating cfgP.policy = true ∧
+    (run cfgP ⟨initWorld 2 3, []⟩ exCA).A = [] ∧ (run cfgP ⟨initWorld 2 3, []⟩ exCA).w.live = [] ∧ (run cfgP ⟨initWorld 2 3, []⟩ exCA).w.ub = [] := by decide +kernel
+example : let s3 := run cfgP ⟨initWorld 2 3, []⟩ (exCA.take 3)
+    let s4 := run cfgP ⟨initWorld 2 3, []⟩ (exCA.take 4)
+    returned cfgP (run cfgP ⟨initWorld 2 3, []⟩ (exCA.take 2)) (.copyAssign 1 0, [2]) = false ∧ (s3.w.hdr 1).alloc = 2 ∧ s3.w.live = [5] ∧
+    (s4.w.hdr 1).alloc = 1 ∧ s4.w.owner (s4.w.hdr 1).data = 1 ∧
+    (s4.w.mem (s4.w.hdr 1).data).take (s4.w.hdr 1).size = [.obj (.val 1), .obj (.val 2), .obj (.val 3), .obj (.val 4)] := by decide +kernel
+example : let s9 := run cfgP ⟨initWorld 2 3, []⟩ (exCA.take 9)
+    let s10 := run cfgP ⟨initWorld 2 3, []⟩ (exCA.take 10)
+    returned cfgP (run cfgP ⟨initWorld 2 3, []⟩ (exCA.take 8)) (.copyAssign 2 1, [1]) = false ∧ (s9.w.hdr 2).alloc = 3 ∧ s9.w.live.length = 3 ∧
+    (s10.w.hdr 2).alloc = 1 ∧ (s10.w.hdr 2).data = (s10.w.hdr 2).inl ∧ s10.w.live.length = 2 ∧
+    (s10.w.mem (s10.w.hdr 2).data).take (s10.w.hdr 2).size = [.obj (.val 3), .obj (.val 4)] := by decide +kernel
 
 end SvModel.System
